@@ -59,5 +59,9 @@ import LexVerif.Props.C01Number
 import LexVerif.Props.C01Trunc
 import LexVerif.Props.C01Compact
 import LexVerif.Props.C01Final
+import LexVerif.Props.C05Bytes
+import LexVerif.Props.C05Final
+import LexVerif.Props.C05Number
+import LexVerif.Props.C05Syntax
 import LexVerif.Props.C12Sep
 import LexVerif.Props.C14Pow2
